@@ -1496,6 +1496,8 @@ pub fn run_case(target: &str, prog: &str, cx: &mut RCtx, out: &mut Out) {
     }
     let w0 = Walk::run(&b0.tree, if msl { Some("helper") } else { None });
     let w1 = Walk::run(&b1.tree, if msl { Some("helper") } else { None });
+    // one field for the assignment (possibly empty), as the model prints it
+    let mut obs: Vec<String> = vec![obs.join(" ")];
     obs.push("|refl".into());
     obs.extend(b1.refl.iter().map(|r| format!("{}:{}", r.0, r.1)));
     obs.push("|entry".into());
